@@ -7,8 +7,8 @@ prop, diff, demo, sid = sys.argv[1:5]
 tier = sys.argv[6] if len(sys.argv) > 6 else "quick"
 D = tempfile.mkdtemp(prefix="seedeval.", dir="/tmp")
 try:
-    subprocess.run(["git", "-C", "/repo", "worktree", "add", "--detach", D + "/wt", "HEAD", "-q"], check=True)
-    W = D + "/wt"
+    subprocess.run(["git", "-C", "/repo", "worktree", "add", "--detach", D + "/wt%d" % os.getpid(), "HEAD", "-q"], check=True)
+    W = D + "/wt%d" % os.getpid()
     env = dict(os.environ, PYTHONPATH=W)
     def run(cmd, **kw):
         return subprocess.run(cmd, cwd=W, env=env, capture_output=True, text=True, **kw)
@@ -43,5 +43,5 @@ try:
     json.dump(meta, open(out + "/meta.json", "w"), indent=1)
     print(sid, "demo clean/mut:", demo_clean, demo_mut, "tests:", tests_ok, "check exit:", chk.returncode, "|", (lines[0][:160] if lines else ""))
 finally:
-    subprocess.run(["git", "-C", "/repo", "worktree", "remove", "--force", D + "/wt"], capture_output=True)
+    subprocess.run(["git", "-C", "/repo", "worktree", "remove", "--force", D + "/wt%d" % os.getpid()], capture_output=True)
     shutil.rmtree(D, ignore_errors=True)
